@@ -38,7 +38,7 @@ PROPS = {
     ),
 }
 
-ENGINES = {'e2e': vlib.e2e_engine, 'store': vlib.store_engine, 'atomic': vlib.atomic_engine, 'encrypt': vlib.encrypt_engine}
+ENGINES = {'e2e': vlib.e2e_engine, 'store': vlib.store_engine, 'atomic': vlib.atomic_engine, 'encrypt': vlib.encrypt_engine, 'swr': vlib.swr_engine}
 
 
 def _e2e(profiles, monitors, projection, nq=1500, nt=20000, extra=None):
@@ -93,3 +93,12 @@ PROPS['C17'] = dict(engines=['encrypt'],
 
 PROPS['C12']['e2e'][0]['twins'] = True
 PROPS['C12']['rule'] = E2E_RULE + '; every history whose Cache-Control fields were respelled is run a second time with the canonical spelling of the same directive lists and the two runs of the implementation are compared exchange by exchange (outcome, cache status, Age, origin calls, store operations)'
+
+PROPS['C20'] = dict(engines=['e2e', 'swr'],
+                    e2e=[dict(profile='freshen', n_quick=500, n_thorough=6000)],
+                    monitors=['C20'], projection=['outcome', 'calls', 'cache_status', 'times'],
+                    rule=(E2E_RULE + '; plus experiments in virtual time (testing/synctest): a grid of SWR timeout settings (unset, 0, negative, 1 ns, 2 s, 10 s) x origin latencies '
+                          '(0, 1 ms, T-1us, T+1us, 3T, never) x caller contexts (not cancelled, cancelled before the call, at once after the return, at T/2, at 2T) x background outcomes '
+                          '(304, 200, 500, transport error) x stored validators, plus random points; observed: foreground latency, status and body, number of background requests, their '
+                          'conditional fields, the deadline of their context, when they ended, goroutines of the library left in the bubble; every experiment is non-trivial'),
+                    assumptions=['the upstream RoundTripper returns once the request context is done (net/http.Transport does); testing/synctest virtual time equals the clock the transport reads'])
